@@ -127,7 +127,7 @@ func (x *Exec) lessOnElems(st *State, fr *Frame, hv heapView) func(e1, e2 string
 	}
 }
 
-func (x *Exec) heapSWO(st *State, fr *Frame, in ssa.Instruction, hv heapView, present func(e string) string) {
+func (x *Exec) heapSWO(st *State, fr *Frame, in ssa.Instruction, hv heapView, present func(e string) string, count func(e string) string) {
 	less := x.lessOnElems(st, fr, hv)
 	es := x.sortOf(hv.et)
 	a, b, c := x.fresh("e"), x.fresh("e"), x.fresh("e")
@@ -140,11 +140,15 @@ func (x *Exec) heapSWO(st *State, fr *Frame, in ssa.Instruction, hv heapView, pr
 		}
 		return s + ") " + implies(and(g...), body) + ")"
 	}
-	x.oblige(st, fr, "comparator-irreflexive", "", in, 0, q(not(less(a, a)), a), "heap Less(a,a) is false")
-	x.oblige(st, fr, "comparator-asymmetric", "", in, 0, q(implies(less(a, b), not(less(b, a))), a, b), "heap Less(a,b) excludes Less(b,a)")
-	x.oblige(st, fr, "comparator-transitive", "", in, 0, q(implies(and(less(a, b), less(b, c)), less(a, c)), a, b, c), "heap Less is transitive")
+	// container/heap only ever compares two different positions: the order must be strict on distinct
+	// element values, and irreflexive on a value that occurs more than once
+	ne := func(p, r string) string { return not(eq(p, r)) }
+	dup := func(v string) string { return app(">=", count(v), "2") }
+	x.oblige(st, fr, "comparator-irreflexive", "", in, 0, q(implies(dup(a), not(less(a, a))), a), "heap Less(a,a) is false for a value present twice")
+	x.oblige(st, fr, "comparator-asymmetric", "", in, 0, q(implies(and(ne(a, b), less(a, b)), not(less(b, a))), a, b), "heap Less(a,b) excludes Less(b,a) (a != b)")
+	x.oblige(st, fr, "comparator-transitive", "", in, 0, q(implies(and(ne(a, b), ne(b, c), ne(a, c), less(a, b), less(b, c)), less(a, c)), a, b, c), "heap Less is transitive on distinct elements")
 	inc := func(p, r string) string { return and(not(less(p, r)), not(less(r, p))) }
-	x.oblige(st, fr, "comparator-equivalence", "", in, 0, q(implies(and(inc(a, b), inc(b, c)), inc(a, c)), a, b, c), "heap Less: incomparability is transitive (strict weak order)")
+	x.oblige(st, fr, "comparator-equivalence", "", in, 0, q(implies(and(ne(a, b), ne(b, c), ne(a, c), inc(a, b), inc(b, c)), inc(a, c)), a, b, c), "heap Less: incomparability is transitive (strict weak order on distinct elements)")
 }
 
 // scramble replaces the content of the view's backing array by unspecified values.
@@ -185,7 +189,7 @@ func heapInitModel(x *Exec, st *State, fr *Frame, in ssa.Instruction, fn *ssa.Fu
 	hmN, hmS := x.hmName(hv.et)
 	x.setArr(st, hmN, hmS, app("store", x.getArr(st, hmN, hmS), h, cnt))
 	x.setArr(st, "HS", "(Array Int Int)", app("store", x.getArr(st, "HS", "(Array Int Int)"), h, n))
-	x.heapSWO(st, fr, in, hv, func(v string) string { return app(">", app("select", cnt, v), "0") })
+	x.heapSWO(st, fr, in, hv, func(v string) string { return app(">", app("select", cnt, v), "0") }, func(v string) string { return app("select", cnt, v) })
 	x.frameCheck(st, fr, app("s_arr", s), in)
 	x.scramble(st, hv, s)
 	x.setArr(st, "HOK", "(Array Int Bool)", app("store", x.getArr(st, "HOK", "(Array Int Bool)"), h, "true"))
@@ -203,7 +207,7 @@ func heapPopModel(x *Exec, st *State, fr *Frame, in ssa.Instruction, fn *ssa.Fun
 	hm := x.define(st, "hm", "(Array "+es+" Int)", app("select", x.getArr(st, hmN, hmS), h))
 	present := func(v string) string { return app(">", app("select", hm, v), "0") }
 	x.assume(st, eq(x.hsizeTerm(st, h), n)) // link maintained by every heap operation
-	x.heapSWO(st, fr, in, hv, present)
+	x.heapSWO(st, fr, in, hv, present, func(v string) string { return app("select", hm, v) })
 	x.frameCheck(st, fr, app("s_arr", s), in)
 	// the removed element
 	xe := x.declare(st, "popped", es)
@@ -255,7 +259,7 @@ func heapPushModel(x *Exec, st *State, fr *Frame, in ssa.Instruction, fn *ssa.Fu
 		x.setArr(st2, hmN, hmS, app("store", x.getArr(st2, hmN, hmS), h, app("store", hm, xe, app("+", app("select", hm, xe), added))))
 		x.setArr(st2, "HS", "(Array Int Int)", app("store", x.getArr(st2, "HS", "(Array Int Int)"), h, n))
 		hm2 := app("select", x.getArr(st2, hmN, hmS), h)
-		x.heapSWO(st2, fr, in, hv, func(v string) string { return app(">", app("select", hm2, v), "0") })
+		x.heapSWO(st2, fr, in, hv, func(v string) string { return app(">", app("select", hm2, v), "0") }, func(v string) string { return app("select", hm2, v) })
 		x.frameCheck(st2, fr, app("s_arr", s), in)
 		x.scramble(st2, hv, s)
 		x.sizeFacts(st2, hv, h, n)
